@@ -13,7 +13,6 @@ import (
 	"hash/fnv"
 	"os"
 	"runtime"
-	"runtime/debug"
 	"sort"
 	"sync"
 	"sync/atomic"
@@ -456,7 +455,8 @@ func ReplayOne(body func(*Ctx), choices []int) map[string]*Violation {
 	return w.viol
 }
 
-// Try runs f and returns the recovered panic value and stack, if any.
+// Try runs f and returns the recovered panic value and a stack listing (one
+// function name per line, innermost first), if f panicked.
 func Try(f func()) (pv any, stack string) {
 	defer func() {
 		if r := recover(); r != nil {
@@ -464,7 +464,19 @@ func Try(f func()) (pv any, stack string) {
 				panic(ie)
 			}
 			pv = r
-			stack = string(debug.Stack())
+			var pcs [64]uintptr
+			n := runtime.Callers(2, pcs[:])
+			fr := runtime.CallersFrames(pcs[:n])
+			var b []byte
+			for {
+				f, more := fr.Next()
+				b = append(b, f.Function...)
+				b = append(b, "()\n"...)
+				if !more {
+					break
+				}
+			}
+			stack = string(b)
 		}
 	}()
 	f()
